@@ -28,6 +28,17 @@ type node struct {
 	peers [2]*mockCLA
 	up    [2]bool
 	acc   []*accepted
+	lastEv int
+}
+
+// delivered: a transmission of a to peer i succeeded before log position `before`.
+func (n *node) delivered(a *accepted, i int, before int) bool {
+	for _, r := range n.log[:before] {
+		if r.ok && r.peer == n.peers[i].addr && r.b.ID().Scrub() == a.id.Scrub() {
+			return true
+		}
+	}
+	return false
 }
 
 func newNode(algo string) *node {
@@ -126,7 +137,8 @@ func H05_History() {
 		for i := range n.peers {
 			n.peers[i].fail = verif.Bool(nm("fail"+nm("p", i)+"s", step))
 		}
-		switch verif.Choose(nm("ev", step), 6) {
+		n.lastEv = verif.Choose(nm("ev", step), 6)
+		switch n.lastEv {
 		case 0: // application submits a bundle for a remote node (not a peer)
 			if submitted < 2 {
 				payload := []byte{byte('A' + submitted)}
@@ -137,10 +149,12 @@ func H05_History() {
 				n.acc = append(n.acc, &accepted{id: b.ID(), payload: payload, dest: b.PrimaryBlock.Destination})
 				submitted++
 			}
-		case 1:
-			n.peerAppears(0)
-		case 2:
-			n.peerAppears(1)
+		case 1, 2:
+			if n.up[n.lastEv-1] {
+				n.lastEv = -1 // already connected: nothing happens
+			} else {
+				n.peerAppears(n.lastEv - 1)
+			}
 		case 3:
 			n.peerDisappears(verif.Choose(nm("which", step), 2))
 		case 4: // pending-retry tick
@@ -149,8 +163,25 @@ func H05_History() {
 			n.restart()
 		}
 		n.noteSends(before)
-		// epidemic: a newly connected peer is offered every bundle it does not have yet
 		n.checkRetention("after event")
+		// epidemic: on a retry tick and whenever a peer appears, every connected peer that does not have a stored
+		// bundle yet (no successful transmission to it) is offered the bundle
+		if ev := n.lastEv; n.algo == "epidemic" && (ev == 4 || ev == 1 || ev == 2) {
+			for _, a := range n.acc {
+				for i := range n.peers {
+					if !n.up[i] || n.delivered(a, i, before) {
+						continue
+					}
+					offered := false
+					for _, r := range n.log[before:] {
+						if r.peer == n.peers[i].addr && r.b.ID().Scrub() == a.id.Scrub() {
+							offered = true
+						}
+					}
+					verif.Assert(offered, "epidemic: a retry offers a stored bundle to every connected peer that does not have it yet")
+				}
+			}
+		}
 	}
 	// finally: every peer that is up and did not get a bundle successfully must have been offered it (epidemic)
 	if n.algo == "epidemic" {
